@@ -1,7 +1,7 @@
 (* DnsAnswerProofs.v -- C10, emitter side, part 2: the server's answers (write_dns ->
    dns_encode_answer) for every record type, parsed by the strict parser of DnsWf.v. *)
 From Coq Require Import List NArith Arith Bool Lia ZArith ZifyBool ZifyNat ZifyN.
-From Iodine Require Import Generated.SrcConsts Base Codec CodecProofs Hostname DnsName DnsMsg DnsWf DnsWfProofs DnsEmitProofs.
+From Iodine Require Import Generated.SrcConsts Base Codec CodecProofs Hostname DnsName DnsMsg DnsWf DnsWfProofs DnsEmitProofs DnsNameencProofs.
 Import ListNotations.
 Local Open Scope N_scope.
 
@@ -169,33 +169,6 @@ Proof.
 Qed.
 
 (* ---------------------------------------------------------------------------------- *)
-(* codec output: length bound and character set                                          *)
-
-Lemma enc_len_bound c cap d : wfb c = true -> (length (fst (encode c cap d)) <= 2 * length d + 1)%nat.
-Proof.
-  intros Hwf. destruct (enc_exact c Hwf cap d) as [_ [G2 [G3 _]]].
-  pose proof (k_ok c Hwf) as Hk. rewrite G3. unfold enclen.
-  set (n := snd (encode c cap d)) in *. clearbody n.
-  destruct Hk as [E|[E|E]]; rewrite E; lia.
-Qed.
-
-(* no codec emits '.' or NUL *)
-Definition hostchar (ch : N) : bool := negb (ch =? 46) && negb (ch =? 0).
-
-Lemma enc_hostchars c cap d : c = b32 \/ c = b64 \/ c = b64u \/ c = b128 ->
-  Forall (fun ch => hostchar ch = true) (fst (encode c cap d)).
-Proof.
-  intros [->|[->|[->| ->]]].
-  - apply alpha_from_sweep; [exact wfb_b32|vm_compute; reflexivity].
-  - apply alpha_from_sweep; [exact wfb_b64|vm_compute; reflexivity].
-  - apply alpha_from_sweep; [exact wfb_b64u|vm_compute; reflexivity].
-  - apply alpha_from_sweep; [exact wfb_b128|vm_compute; reflexivity].
-Qed.
-
-Lemma four_wfb c : c = b32 \/ c = b64 \/ c = b64u \/ c = b128 -> wfb c = true.
-Proof. intros [->|[->|[->| ->]]]; [exact wfb_b32|exact wfb_b64|exact wfb_b64u|exact wfb_b128]. Qed.
-
-(* ---------------------------------------------------------------------------------- *)
 (* stage 2: TXT                                                                          *)
 
 Lemma txt_chunk_pos : (1 <= txt_chunk)%nat.
@@ -294,4 +267,77 @@ Proof.
   { constructor; [|constructor]. split; [exact T3|]. split; [|exact I]. rewrite Hat, Hty. apply rs_txt; assumption. }
   destruct (answer_msg_ok q ls [txt] [None] Hid Hq Hqa) as [msg [Hwf Hans]]; try assumption; [discriminate|cbn [length]; lia|].
   eexists. exists td, msg. split; [rewrite T4; reflexivity|]. split; [rewrite Hat in Hwf; exact Hwf|exact Hans].
+Qed.
+
+(* ---------------------------------------------------------------------------------- *)
+(* stage 3: CNAME / A (answered with a CNAME record)                                     *)
+
+(* name-valued RDATA written by putname for a host name built by write_dns_nameenc *)
+Lemma host_putname buflen nm : enc_host_ok nm -> (253 <= buflen)%nat ->
+  putname buflen nm = Some (enc_name (tokens nm)) /\
+  lens_ok (tokens nm) /\ (wire_len (tokens nm) <= 255)%nat /\
+  Forall (fun l => (length l <= 57)%nat) (tokens nm).
+Proof.
+  intros [Hnn [Hlen [Hne H57]]] Hb.
+  pose proof (cstr_nonul nm Hnn) as Hc.
+  split; [|split; [|split]].
+  - rewrite putname_tokens; rewrite Hc.
+    + reflexivity.
+    + eapply Forall_impl; [|exact H57]. intros w Hw. cbv beta in Hw. lia.
+    + lia.
+  - unfold lens_ok. pose proof (tokens_ok nm) as Hok. rewrite Forall_forall in *. intros w Hw.
+    destruct (Hok w Hw) as [H1 _]. specialize (H57 w Hw). cbv beta in H57. lia.
+  - rewrite toklen_wire. pose proof (tokens_len nm). lia.
+  - exact H57.
+Qed.
+
+Lemma answer_cname_form q ls nm :
+  q_name q = name_of ls -> Forall label_ok ls -> (wire_len ls <= 255)%nat ->
+  (q_type q = T_CNAME \/ q_type q = T_A) -> enc_host_ok nm ->
+  dns_encode_answer buf64k q nm =
+    Some (hdr12 (q_id q) 132 0 1 (N.of_nat (length [enc_name (tokens nm)])) 0 0 ++ enc_name ls ++
+          DnsWfProofs.be16 (q_type q) ++ DnsWfProofs.be16 1 ++ recs12 T_CNAME 1 0 [enc_name (tokens nm)]).
+Proof.
+  intros Hn Hok Hw Hty Hnm.
+  unfold dns_encode_answer. rewrite Hn.
+  destruct (buf64k <? 12)%nat eqn:E; [apply Nat.ltb_lt in E; unfold buf64k in E; lia|].
+  rewrite (putname_name_of _ ls Hok) by (unfold buf64k; lia). cbn [opt_bytes].
+  rewrite hdr_same, be16_same. change C_IN with 1.
+  rewrite checklen_true by len_solve. cbn [negb].
+  assert (Hb : (q_type q =? T_CNAME) || (q_type q =? T_A) = true).
+  { destruct Hty as [-> | ->]; reflexivity. }
+  rewrite Hb. rewrite front_alt.
+  rewrite checklen_true by len_solve. cbn [negb].
+  destruct (host_putname (buf64k - length (front (q_id q) (q_type q) ls ++ rr_head T_CNAME) - 2) nm Hnm) as [Hp [Hlo [Hwl H57]]]; [len_solve|].
+  rewrite Hp. cbn [opt_bytes].
+  assert (Hel : (length (enc_name (tokens nm)) <= 255)%nat) by (rewrite enc_name_length; exact Hwl).
+  rewrite checklen_true by (revert Hel; generalize (enc_name (tokens nm)); intros t Hel; len_solve). cbn [negb].
+  replace (N.of_nat (length (enc_name (tokens nm))) mod 65536) with (N.of_nat (length (enc_name (tokens nm)))) by lia.
+  rewrite <- !app_assoc. rewrite one_record_msg. reflexivity.
+Qed.
+
+Lemma answer_wf_cname q ls p downenc td :
+  q_name q = name_of ls -> wf_labels ls -> ls <> [] -> q_id q < 65536 ->
+  (q_type q = T_CNAME \/ q_type q = T_A) ->
+  answer_goal q ls p downenc td.
+Proof.
+  intros Hn [Hok Hw] Hne Hid Hty.
+  assert (Hat : answer_type (q_type q) = T_CNAME) by (destruct Hty as [-> | ->]; reflexivity).
+  assert (Hq : q_type q < 65536) by (destruct Hty as [-> | ->]; unfold T_CNAME, T_A; lia).
+  assert (Hqa : answer_type (q_type q) < 65536) by (rewrite Hat; unfold T_CNAME; lia).
+  unfold answer_goal, write_dns.
+  assert (Hb : (q_type q =? T_CNAME) || (q_type q =? T_A) = true).
+  { destruct Hty as [-> | ->]; reflexivity. }
+  rewrite Hb.
+  destruct (nameenc_ok buf1k p downenc td) as [nm [Hnm Hhost]]; [unfold buf1k; lia|].
+  rewrite Hnm.
+  destruct (host_putname 253 nm Hhost) as [_ [Hlo [Hwl H57]]]; [lia|].
+  assert (HF : Forall2 (fun rd rdn => N.of_nat (length rd) < 65536 /\ rd_shape (answer_type (q_type q)) rd rdn /\ short_labels rdn)
+                       [enc_name (tokens nm)] [Some (tokens nm)]).
+  { constructor; [|constructor]. split; [rewrite enc_name_length; lia|]. split; [|exact H57].
+    rewrite Hat. apply (rs_name T_CNAME [] (tokens nm)); [reflexivity|exact Hlo|exact Hwl]. }
+  destruct (answer_msg_ok q ls [enc_name (tokens nm)] [Some (tokens nm)] Hid Hq Hqa) as [msg [Hwf Hans]]; try assumption;
+    [discriminate|cbn [length]; lia|].
+  eexists. exists (td_next td), msg. split; [rewrite (answer_cname_form q ls nm Hn Hok Hw Hty Hhost); reflexivity|].
+  split; [rewrite Hat in Hwf; exact Hwf|exact Hans].
 Qed.
